@@ -523,6 +523,11 @@ class Unroller(ast.NodeTransformer):
         g, recv = None, None
         if isinstance(f, ast.Name):
             g = self.mod_funcs.get(f.id)
+            if self.fn_nodes:
+                # a generator defined inside the current function (a closure): its free variables mean the same here
+                for st in self.fn_nodes[-1].body:
+                    if isinstance(st, ast.FunctionDef) and st.name == f.id:
+                        g = st
         elif isinstance(f, ast.Attribute) and isinstance(f.value, ast.Name) and self.cls and self.cls[-1] in self.classes and (f.value.id in ("self", "cls") or f.value.id == self.cls[-1]):
             g = self.classes[self.cls[-1]][1].get(f.attr)
             recv = f.value.id
@@ -555,8 +560,19 @@ class Unroller(ast.NodeTransformer):
                 if p_ not in defaults:
                     return None
                 bound[p_] = defaults[p_]
-        if not all(_simple(v) or (isinstance(v, ast.Call) and ast.unparse(v) == "type(self)") for v in bound.values()):
-            return None
+        self._gen_pre = []
+        for p_, v in list(bound.items()):
+            if _simple(v) or (isinstance(v, ast.Call) and ast.unparse(v) == "type(self)"):
+                continue
+            if not _pure_expr(v) and not isinstance(v, (ast.BoolOp, ast.IfExp, ast.Tuple)):
+                return None
+            if any(isinstance(n, (ast.Call, ast.Lambda, ast.NamedExpr, ast.Yield)) for n in ast.walk(v)):
+                return None
+            # an argument that is an expression is first bound to a fresh local, as the call would do
+            self._gen_count = getattr(self, "_gen_count", 0) + 1
+            nm = "%s_arg%d" % (p_, self._gen_count)
+            self._gen_pre.append(ast.copy_location(ast.Assign(targets=[ast.Name(id=nm, ctx=ast.Store())], value=v, type_comment=None), call))
+            bound[p_] = ast.Name(id=nm, ctx=ast.Load())
 
         def ok(stmts, in_loop):
             for st in stmts:
@@ -663,8 +679,10 @@ class Unroller(ast.NodeTransformer):
         self.generic_visit(node)
         got = self._simple_generator(node.iter)
         if got is not None:
+            pre = [ast.fix_missing_locations(x) for x in getattr(self, "_gen_pre", [])]
             out = self._inline_generator(node, got)
             if out:
+                out = pre + out
                 self.count += 1
                 out = [self.visit(x) if isinstance(x, (ast.For, ast.If, ast.While)) else x for x in out]
                 return [y for x in out for y in (x if isinstance(x, list) else [x])]
@@ -1138,6 +1156,17 @@ class _MapExtend(ast.NodeTransformer):
                     self.partials.setdefault(c.name, {})[nm] = v
         self.cls = []
         self.n = 0
+        # names of generator functions of the module (a def whose own body yields)
+        self.generators = set()
+        for fdef in [n for n in ast.walk(tree) if isinstance(n, ast.FunctionDef)]:
+            stack = list(fdef.body)
+            while stack:
+                x = stack.pop()
+                if isinstance(x, (ast.Yield, ast.YieldFrom)):
+                    self.generators.add(fdef.name)
+                    break
+                if not isinstance(x, (ast.FunctionDef, ast.AsyncFunctionDef, ast.Lambda, ast.ClassDef)):
+                    stack += list(ast.iter_child_nodes(x))
 
     def visit_ClassDef(self, node):
         self.cls.append(node.name)
@@ -1159,8 +1188,23 @@ class _MapExtend(ast.NodeTransformer):
     def visit_Expr(self, node):
         self.generic_visit(node)
         c = node.value
+        if isinstance(c, ast.Call) and isinstance(c.func, ast.Attribute) and c.func.attr == "extend" and len(c.args) == 1 and not c.keywords and isinstance(c.args[0], ast.Call) and ast.unparse(c.args[0].func) in ("itertools.chain", "chain") and not c.args[0].keywords and c.args[0].args and not any(isinstance(a, ast.Starred) for a in c.args[0].args) and _simple(c.func.value):
+            # x.extend(chain(a, b, ..))  ->  x.extend(a); x.extend(b); ..   (the parts are consumed in this order anyway)
+            out = []
+            for part in c.args[0].args:
+                e2 = ast.copy_location(ast.Expr(value=ast.copy_location(ast.Call(func=copy.deepcopy(c.func), args=[part], keywords=[]), c)), node)
+                r = self.visit_Expr(e2)
+                out += r if isinstance(r, list) else [r]
+            return out
         if isinstance(c, ast.Call) and isinstance(c.func, ast.Attribute) and c.func.attr == "extend" and len(c.args) == 1 and not c.keywords:
             m = c.args[0]
+            if isinstance(m, ast.Call) and ((isinstance(m.func, ast.Name) and m.func.id in self.generators) or (isinstance(m.func, ast.Attribute) and isinstance(m.func.value, ast.Name) and m.func.value.id in ("self", "cls") and m.func.attr in self.generators)):
+                # x.extend(f(..))  ->  for v in f(..): x.append(v)   (what extend does with any iterable)
+                self.n += 1
+                v = "_extended%d" % self.n
+                app = ast.Expr(value=ast.Call(func=ast.Attribute(value=c.func.value, attr="append", ctx=ast.Load()), args=[ast.Name(id=v, ctx=ast.Load())], keywords=[]))
+                loop = ast.copy_location(ast.For(target=ast.Name(id=v, ctx=ast.Store()), iter=m, body=[ast.copy_location(app, node)], orelse=[], type_comment=None), node)
+                return ast.fix_missing_locations(loop)
             if isinstance(m, (ast.GeneratorExp, ast.ListComp)) and len(m.generators) == 1 and not m.generators[0].is_async:
                 gen = m.generators[0]
                 app = ast.Expr(value=ast.Call(func=ast.Attribute(value=c.func.value, attr="append", ctx=ast.Load()), args=[m.elt], keywords=[]))
